@@ -33,9 +33,19 @@ the UndefinedError subclass), "TemplateNotFound" (includes TemplatesNotFound), "
 IR (all JSON)
 -------------
 ir = {"kind": "inherit"|"modules", "templates": {name: [node, ...] | {"broken": source}},
-      "entries": [names], "globals": {name: value}, "modules": [names whose export set is checked]}
+      "entries": [names], "globals": {name: value}, "modules": [names whose export set is checked],
+      "autoescape": False | True | {"on_for": [template names]}  (optional; the last form is a callable by name)}
 
-expressions  ["caller"]  (``caller()`` inside a macro invoked by a call block)
+Escaping model: every function (template root, block, macro) escapes its own ``{{ }}`` outputs iff
+autoescaping is on *lexically* (the template's setting, changed by ``{% autoescape %}`` sections);
+results of super() / self.b() / macro calls / caller() / set blocks are safe markup whenever
+autoescaping is on where they are produced, so they are never escaped again; ``a + b`` and ``a ~ b``
+with one safe operand escape the other one.  Where the run-time setting of the context and the lexical
+setting disagree *and* that would be visible (a block called from inside a section that switches
+escaping off and itself printing a block reference; block references in + / ~) the case is Ambiguous.
+
+expressions  ["add", e, e]  (``a + b`` on strings / markup)
+             ["caller"]  (``caller()`` inside a macro invoked by a call block)
              ["c", const] ["n", name] ["cat", e, e] ["cond", test, e, e] ["call", name, [e..]] ["attr", name, attr]
              ["mcall", name, attr, [e..]] ["super", depth] ["self", block] ["loopidx"] ["defd", e] ["not", e]
 statements   ["setmulti", [names], [e..]]  (``{% set a, _b = e1, e2 %}``)
@@ -45,6 +55,7 @@ statements   ["setmulti", [names], [e..]]  (``{% set a, _b = e1, e2 %}``)
              ["extends", e] ["include", target, {"ctx": None|True|False, "im": bool}]
              ["import", target, alias, ctx] ["from", target, [[name, alias|None]..], ctx]
              ["callblock", macro, [e..], body] ["filter", "upper"|"default_D", body]
+             ["autoescape", bool, body]  (a scope of its own; blocks are never placed inside)
 targets      an expression, or ["names", [e..]] for a literal list
 data values  str / int / bool / None / list of these / {"$": "template", "name": n}
 """
@@ -75,11 +86,22 @@ class _U:
 U = _U()
 
 
-class Macro:
-    __slots__ = ("name", "params", "body", "ctx", "scopes", "tname", "tl")
+class Safe(str):
+    """Markup: text that is not escaped again."""
 
-    def __init__(self, name, params, body, ctx, scopes, tname, tl):
+    __slots__ = ()
+
+
+def escape(text):
+    return text.replace("&", "&amp;").replace("<", "&lt;").replace(">", "&gt;").replace("'", "&#39;").replace('"', "&#34;")
+
+
+class Macro:
+    __slots__ = ("name", "params", "body", "ctx", "scopes", "tname", "tl", "ae")
+
+    def __init__(self, name, params, body, ctx, scopes, tname, tl, ae=False):
         self.name, self.params, self.body, self.ctx, self.scopes, self.tname, self.tl = name, params, body, ctx, scopes, tname, tl
+        self.ae = ae
 
 
 class Module:
@@ -125,7 +147,8 @@ class Ctx:
     ``blocks`` name -> [(template name, block node)] most-derived first.  ``extra`` = names that are
     in ``parent`` only because this is a derived (scoped-block) context."""
 
-    def __init__(self, parent, blocks=None, extra=frozenset()):
+    def __init__(self, parent, blocks=None, extra=frozenset(), dyn=None):
+        self.dyn = dyn  # [bool]: the context's run-time autoescape setting (shared with derived contexts)
         self.parent = parent
         self.vars = {}
         self.exported = set()
@@ -152,6 +175,7 @@ class Frame:
         self.own = own  # index into scopes: scopes[own:] belong to this function (closure scopes before)
         self.closure = False  # True inside a macro body (reads of enclosing names are closure reads)
         self.tl = root  # RootState of the template root function this frame is lexically nested in (or None)
+        self.ae = False  # lexical autoescape setting
 
 
 class RootState:
@@ -207,7 +231,7 @@ def find_blocks(body, acc=None):
             find_blocks(n[3], acc)
         elif k in ("for", "with", "macro", "callblock"):
             find_blocks(n[3], acc)
-        elif k in ("setblock", "filter"):
+        elif k in ("setblock", "filter", "autoescape"):
             find_blocks(n[2], acc)
     return acc
 
@@ -232,7 +256,7 @@ def to_text(v):
     if v is None:
         return "None"
     if isinstance(v, Module):
-        return v.body
+        return Safe(v.body)
     raise Ambiguous("printing %s" % type(v).__name__)
 
 
@@ -255,6 +279,31 @@ class Interp:
         self.depth = 0
         self._tl = {}
         self._blocks = {}
+        self.autoescape = ir.get("autoescape") or False
+
+    def autoescape_for(self, tname):
+        a = self.autoescape
+        if isinstance(a, dict):
+            return tname in a["on_for"]
+        return bool(a)
+
+    def printed(self, v, frame):
+        """Text a ``{{ }}`` output of value ``v`` contributes in ``frame``."""
+        t = to_text(v)
+        if frame.ae and not isinstance(t, Safe) and not isinstance(v, Safe):
+            return escape(t)
+        return str(t)
+
+    def produced(self, text, frame, direct):
+        """Result of a block reference / macro call / caller(): markup iff the context's run-time
+        setting is on.  ``direct`` = the result is printed as it is by the calling frame."""
+        dyn = frame.ctx.dyn[0]
+        if direct:
+            if frame.ae and not dyn:
+                raise Ambiguous("block reference printed where lexical autoescape is on but the context's is off")
+        elif dyn != frame.ae:
+            raise Ambiguous("block reference used in an expression where lexical and run-time autoescape differ")
+        return Safe(text) if dyn else text
 
     # -- template table ------------------------------------------------------------------
     def load(self, name):
@@ -295,6 +344,8 @@ class Interp:
         """Run a template as the start of a (possible) inheritance chain in ``ctx``."""
         for bname, node in self.blocks_of(tname).items():
             ctx.blocks.setdefault(bname, []).append((tname, node))
+        if ctx.dyn is None:
+            ctx.dyn = [self.autoescape_for(tname)]
         cur = tname
         seen = 0
         while cur is not None:
@@ -303,6 +354,7 @@ class Interp:
                 raise Ambiguous("inheritance cycle")
             root = RootState()
             frame = Frame(ctx, cur, toplevel=True, root=root)
+            frame.ae = self.autoescape_for(cur)
             self.body(self.templates[cur], frame, out)
             cur = root.parent
         return ctx
@@ -359,14 +411,26 @@ class Interp:
         return d, local
 
     # -- expressions ---------------------------------------------------------------------
-    def ev(self, e, frame):
+    def ev(self, e, frame, direct=False):
         k = e[0]
         if k == "c":
             return e[1]
         if k == "n":
             return self.lookup(e[1], frame)
         if k == "cat":
-            return to_text(self.ev(e[1], frame)) + to_text(self.ev(e[2], frame))
+            va, vb = self.ev(e[1], frame), self.ev(e[2], frame)
+            a, b = to_text(va), to_text(vb)
+            sa, sb = isinstance(va, Safe) or isinstance(a, Safe), isinstance(vb, Safe) or isinstance(b, Safe)
+            if frame.ae and (sa or sb):
+                return Safe((a if sa else escape(a)) + (b if sb else escape(b)))
+            return str(a) + str(b)
+        if k == "add":
+            a, b = self.ev(e[1], frame), self.ev(e[2], frame)
+            if not isinstance(a, str) or not isinstance(b, str):
+                raise Ambiguous("+ on non-strings")
+            if isinstance(a, Safe) or isinstance(b, Safe):
+                return Safe((a if isinstance(a, Safe) else escape(a)) + (b if isinstance(b, Safe) else escape(b)))
+            return a + b
         if k == "not":
             return not truth(self.ev(e[1], frame))
         if k == "cond":
@@ -376,20 +440,20 @@ class Interp:
         if k == "call":
             fn = self.lookup(e[1], frame)
             args = [self.ev(a, frame) for a in e[2]]
-            return self.call(fn, args, e[1])
+            return self.produced(self.call(fn, args, e[1]), frame, direct)
         if k == "attr":
             return self.getattr(self.lookup(e[1], frame), e[2], e[1])
         if k == "mcall":
             fn = self.getattr(self.lookup(e[1], frame), e[2], e[1])
             args = [self.ev(a, frame) for a in e[3]]
-            return self.call(fn, args, e[2])
+            return self.produced(self.call(fn, args, e[2]), frame, direct)
         if k == "caller":
             c = self.lookup("caller", frame)
             if c is U:
                 raise TplError("UndefinedError", "caller is undefined")
             if not isinstance(c, Caller):
                 raise Ambiguous("'caller' bound to data")
-            return self.run_caller(c)
+            return self.produced(self.run_caller(c), frame, direct)
         if k == "loopidx":
             lp = self.lookup("loop", frame)
             if lp is U:
@@ -398,9 +462,9 @@ class Interp:
                 raise Ambiguous("'loop' bound to data")
             return lp.index
         if k == "super":
-            return self.ev_super(e[1], frame)
+            return self.produced(self.ev_super(e[1], frame), frame, direct)
         if k == "self":
-            return self.ev_self(e[1], frame)
+            return self.produced(self.ev_self(e[1], frame), frame, direct)
         raise ValueError("unknown expression %r" % (e,))
 
     def ev_attr_defined(self, e, frame):
@@ -422,6 +486,7 @@ class Interp:
             sub = Frame(f.ctx, f.tname, scopes=f.scopes + [Scope({}, static_stores(c.body))], block=f.block, ok=f.ok, own=f.own)
             sub.closure = True
             sub.tl = f.tl
+            sub.ae = f.ae
             buf = []
             self.body(c.body, sub, buf)
             return "".join(buf)
@@ -449,6 +514,7 @@ class Interp:
             frame = Frame(fn.ctx, fn.tname, scopes=scopes, own=len(fn.scopes))
             frame.closure = True
             frame.tl = fn.tl
+            frame.ae = fn.ae
             out = []
             self.body(fn.body, frame, out)
             return "".join(out)
@@ -488,6 +554,7 @@ class Interp:
         try:
             tname, node = ctx.blocks[name][idx]
             frame = Frame(ctx, tname, scopes=[Scope({}, static_stores(node[3]))], block=(name, idx), ok=ok)
+            frame.ae = self.autoescape_for(tname)
             out = []
             self.body(node[3], frame, out)
             return "".join(out)
@@ -534,14 +601,14 @@ class Interp:
                 # compiled out (static extends) or skipped at run time: not even evaluated
                 self.events.add("stray_output_suppressed")
                 return
-            self.emit(frame, out, to_text(self.ev(n[1], frame)))
+            self.emit(frame, out, self.printed(self.ev(n[1], frame, direct=True), frame))
         elif k == "probe":
             if frame.root is not None and frame.root.parent is not None:
                 return
             parts = []
             for name in n[1]:
                 v = self.lookup(name, frame)
-                parts.append("%s=%s:%s;" % (name, "True" if v is not U else "False", to_text(v)))
+                parts.append("%s=%s:%s;" % (name, "True" if v is not U else "False", self.printed(v, frame)))
             self.emit(frame, out, "".join(parts))
         elif k == "set":
             self.assign(frame, n[1], self.ev(n[2], frame))
@@ -559,9 +626,13 @@ class Interp:
                         ok=frame.ok, own=frame.own)
             sub.closure = frame.closure
             sub.tl = frame.tl
+            sub.ae = frame.ae
             buf = []
             self.body(n[2], sub, buf)
-            self.assign(frame, n[1], "".join(buf))
+            if frame.ctx.dyn[0] != frame.ae:
+                raise Ambiguous("set block where lexical and run-time autoescape differ")
+            text = "".join(buf)
+            self.assign(frame, n[1], Safe(text) if frame.ae else text)
         elif k == "if":
             self.body(n[2] if truth(self.ev(n[1], frame)) else n[3], frame, out)
         elif k == "for":
@@ -580,10 +651,26 @@ class Interp:
             finally:
                 frame.scopes.pop()
         elif k == "macro":
-            m = Macro(n[1], n[2], n[3], frame.ctx, list(frame.scopes), frame.tname, frame.tl)
+            m = Macro(n[1], n[2], n[3], frame.ctx, list(frame.scopes), frame.tname, frame.tl, frame.ae)
             if not (frame.toplevel and len(frame.scopes) == 0):
                 self.events.add("nested_macro")
             self.assign(frame, n[1], m)
+        elif k == "autoescape":
+            flag = bool(n[1])
+            old_dyn, old_ae = frame.ctx.dyn[0], frame.ae
+            frame.ctx.dyn[0] = frame.ae = flag
+            was_top = frame.toplevel
+            frame.toplevel = False  # the section is a scope of its own: assignments inside are local
+            frame.scopes.append(Scope({}, static_stores(n[2])))
+            self.events.add("autoescape_section_%s" % ("on" if flag else "off"))
+            if flag != old_ae:
+                self.events.add("autoescape_section_flips")
+            try:
+                self.body(n[2], frame, out)
+            finally:
+                frame.scopes.pop()
+                frame.toplevel = was_top
+                frame.ctx.dyn[0], frame.ae = old_dyn, old_ae
         elif k == "callblock":
             if frame.root is not None and frame.root.parent is not None:
                 self.events.add("stray_callblock_suppressed")
@@ -600,6 +687,7 @@ class Interp:
                         ok=frame.ok, own=frame.own)
             sub.closure = frame.closure
             sub.tl = frame.tl
+            sub.ae = frame.ae
             buf = []
             self.body(n[2], sub, buf)
             text = "".join(buf)
@@ -646,6 +734,8 @@ class Interp:
             return  # a child only *defines* the block (also inside its top-level if / for / with)
         ctx = frame.ctx
         stack = ctx.blocks[name]
+        if frame.ae != self.autoescape_for(frame.tname):
+            raise Ambiguous("block placed inside an autoescape section")
         if flags.get("required"):
             if len(stack) <= 1:
                 raise TplError("TemplateRuntimeError", "required block %r not found" % name)
@@ -656,7 +746,7 @@ class Interp:
         if flags.get("scoped"):
             flatd, local = self.visible(frame)
             own_local = set(local)
-            sub = Ctx(flatd, blocks=ctx.blocks, extra=frozenset(ctx.extra | own_local))
+            sub = Ctx(flatd, blocks=ctx.blocks, extra=frozenset(ctx.extra | own_local), dyn=ctx.dyn)
             ok = frozenset(frame.ok | own_local)
             if own_local:
                 self.events.add("scoped_with_locals")
